@@ -11,7 +11,7 @@
 (*                             entry (the harness knows its contents)      *)
 (* cfg = [version, nowrap, stdin, spell, dest]; spell: how the source      *)
 (* directory is named on the command line ("abs" | "dot" | "dirdot" |       *)
-(* "hidden"); dest: the output directory is "fresh" (empty), reached        *)
+(* "hidden" | "slash": /abs/src/ with a trailing separator); dest: the output directory is "fresh" (empty), reached        *)
 (* through a symbolic "link", or "stale": it holds an earlier, longer        *)
 (* version of every regular file (a second extraction over the first).      *)
 (* Extracted does not depend on dest: the result is the tree all the same.  *)
@@ -53,7 +53,7 @@ Original == Paths(<<>>, t)
 (* The wrapper entry is named like the last element of the source path AS SPELLED on the command
    line: "src" for /abs/path/src, but "." for `car create .` (run inside the tree) and for `src/.`;
    an entry named "." extracts onto the output directory itself. *)
-Wrapped == ~cfg.nowrap /\ cfg.spell \in {"abs", "hidden"}
+Wrapped == ~cfg.nowrap /\ cfg.spell \in {"abs", "hidden", "slash"}      \* "slash": the name is still the last path element
 WrapName == IF cfg.spell = "hidden" THEN ".src" ELSE "src"        \* "hidden": the source directory is /abs/.src
 Extracted == IF Wrapped THEN {[path |-> <<WrapName>>, k |-> "dir"]} \cup Paths(<<WrapName>>, t) ELSE Paths(<<>>, t)
 Strip(S) == { IF Len(x.path) > 0 /\ x.path[1] = WrapName /\ Wrapped THEN [x EXCEPT !.path = Tail(@)] ELSE x : x \in S }
